@@ -115,9 +115,9 @@ def valid_context(rng, entry):
                         v = 5000 + n
                 elif c == side + 'attr':
                     v = 'a b'
-                elif dt == 'int64':
+                elif str(dt).startswith('int'):
                     v = 1
-                elif dt == 'float64':
+                elif str(dt).startswith('float'):
                     v = 0.5
                 elif dt == 'bool':
                     v = True
@@ -208,7 +208,7 @@ def make_invalid(rng, entry, kind, call, objs):
         call[side + '_out_attrs'] = cur
     elif kind in ('numeric_l_attr', 'numeric_r_attr'):
         spec = call[tname]
-        nums = [c for c in spec['cols'] if spec['dtypes'].get(c) in ('int64', 'float64')]
+        nums = [c for c in spec['cols'] if str(spec['dtypes'].get(c)).startswith(('int', 'float'))]
         call[side + '_attr'] = rng.choice(nums)
     elif kind in ('l_key_dup', 'r_key_dup'):
         spec = dict(call[tname])
@@ -228,6 +228,7 @@ def make_invalid(rng, entry, kind, call, objs):
             spec['dtypes'][side + 'id'] = 'Int64'
         else:
             keys[pos] = None if isinstance(keys[0], str) else gen.NAN
+            spec['dtypes'].pop(side + 'id', None)             # int32/int64 cannot hold NaN: let pandas infer
         spec['data'][side + 'id'] = keys
         if isinstance(keys[0], str) or isinstance(keys[-1], str):
             spec['dtypes'][side + 'id'] = 'object'
